@@ -50,6 +50,9 @@ struct LoopState<'a> {
     variable: &'a str,
     max: i64,
     stmts: &'a [Stmt],
+    /// The counter value of the current pass. It is the loop's own: rebinding the
+    /// variable inside the body does not change how often the body runs.
+    counter: i64,
 }
 
 #[derive(Debug)]
@@ -89,6 +92,7 @@ impl<'a> LoopState<'a> {
                 variable: "",
                 max: 0,
                 stmts: &[],
+                counter: 0,
             },
         )
     }
@@ -146,6 +150,7 @@ impl<'a> StmtIterator<'a> {
                                 variable,
                                 max: max.eval(ctx)?,
                                 stmts: inner,
+                                counter: 0,
                             })
                         }
                         Stmt::ResetRandom => ctx.reset_random_seed(),
@@ -188,13 +193,9 @@ impl<'a> StmtIterator<'a> {
                     };
                 }
                 StmtIteratorState::EndIterateInner(loop_state) => {
-                    let prev_value = ctx
-                        .get(loop_state.variable)
-                        .unwrap()
-                        .value()
-                        .expect("Expected an integer value");
-                    let value = prev_value.saturating_add(1);
+                    let value = loop_state.counter.saturating_add(1);
                     if value < loop_state.max {
+                        loop_state.counter = value;
                         ctx.set(loop_state.variable, value);
                         self.inner_state = StmtIteratorState::StartIterateInner(loop_state.take());
                     } else {
